@@ -9,6 +9,7 @@ from uriutil import render_uri, guarded
 ID = 'C12'
 MODULES = ['Httoop.Props.C12']
 THEOREMS = [
+	'Httoop.Uri.join_path_eq_rfc',
 	'Httoop.Uri.join_scheme_ref',
 	'Httoop.Uri.join_components',
 	'Httoop.Uri.join_path_cases',
@@ -141,5 +142,5 @@ def finding_still_fails(k):
 
 LEVEL_TEXT = ('Theorems over ALL bases and parsed references: which of scheme/authority/query/fragment the result takes from the reference or the base is exactly RFC 3986 5.2.2; for relative-path '
 	'references the "/../" concatenation equals abspath of the RFC 5.2.3 merge (parent_trick), for every normalised base path and every reference path, unbounded. '
-	'The last link (abspath = remove_dot_segments of the collapsed path) is checked by correspondence, not proved.')
-LEVEL_NOTE = 'Trusted: Lean kernel, the RFC transcription, extract.py/correspondence. Open: abspath_eq_rfc (C11). Degenerate references ("?", "#", "//", "s:") are outside the quantifier and skipped by the oracle.'
+	'The last link - abspath plus the leading slash = remove_dot_segments of the collapsed path - is the theorem abspath_eq_rfc of C11 (join_path_eq_rfc).')
+LEVEL_NOTE = 'Trusted: Lean kernel, the RFC transcription, extract.py/correspondence. Degenerate references ("?", "#", "//", "s:") are outside the quantifier and skipped by the oracle.'
